@@ -1135,6 +1135,35 @@ Lemma W397_not_unit :
   (W ^ 397) mod MODULUS <> 0 /\ (W ^ 397) mod MODULUS <> 1 /\ (W ^ 397) mod MODULUS <> MODULUS - 1.
 Proof. vm_compute. repeat split; discriminate. Qed.
 
+Lemma MODULUS_big : 2 < MODULUS.
+Proof. reflexivity. Qed.
+
+Lemma borrow_cases_gen : forall a M c1 c1' c2 c2', 2 < M -> a mod M <> 0 -> a mod M <> 1 -> a mod M <> M - 1 ->
+  (c1 = 0 \/ c1 = 1) -> (c1' = 0 \/ c1' = 1) -> (c2 = 0 \/ c2 = 1) -> (c2' = 0 \/ c2' = 1) ->
+  (a * (c2 - c2')) mod M = (c1 - c1') mod M -> c1 = c1'.
+Proof.
+  intros a M c1 c1' c2 c2' HM K0 K1 K2 H1 H1' H2 H2' E.
+  set (K := a mod M) in *.
+  assert (R0 : 0 mod M = 0) by apply Zmod_0_l.
+  assert (R1 : 1 mod M = 1) by (apply Z.mod_small; lia).
+  assert (Rm : (-1) mod M = M - 1) by (change (-1) with (- (1)); rewrite Z_mod_nz_opp_full; lia).
+  assert (L0 : (a * 0) mod M = 0) by (rewrite Z.mul_0_r; apply Zmod_0_l).
+  assert (L1 : (a * 1) mod M = K) by (rewrite Z.mul_1_r; reflexivity).
+  assert (Lm : (a * -1) mod M = M - K).
+  { replace (a * -1) with (- a) by ring. rewrite Z_mod_nz_opp_full; [reflexivity|exact K0]. }
+  destruct H1 as [-> | ->]; destruct H1' as [-> | ->]; try reflexivity; exfalso;
+    destruct H2 as [-> | ->]; destruct H2' as [-> | ->];
+    change (0 - 0) with 0 in E; change (1 - 1) with 0 in E; change (1 - 0) with 1 in E; change (0 - 1) with (-1) in E;
+    rewrite ?L0, ?L1, ?Lm, ?R0, ?R1, ?Rm in E; lia.
+Qed.
+
+Lemma borrow_cases : forall c1 c1' c2 c2', (c1 = 0 \/ c1 = 1) -> (c1' = 0 \/ c1' = 1) -> (c2 = 0 \/ c2 = 1) -> (c2' = 0 \/ c2' = 1) ->
+  (W ^ 397 * (c2 - c2')) mod MODULUS = (c1 - c1') mod MODULUS -> c1 = c1'.
+Proof.
+  intros c1 c1' c2 c2'. destruct W397_not_unit as (K0 & K1 & K2).
+  apply borrow_cases_gen; auto. exact MODULUS_big.
+Qed.
+
 Lemma length_regs : forall n r, length (regs n r) = n.
 Proof. induction n; intros; cbn [regs length]; auto. Qed.
 
@@ -1177,9 +1206,7 @@ Proof.
   assert (C : c1 = c1').
   { unfold mznum in M1, M1'. pose proof (borrow_cong _ _ _ _ _ _ _ M1 M1') as BC.
     destruct W1 as (_ & _ & Hc1). destruct W1' as (_ & _ & Hc1'). destruct W2 as (_ & _ & Hc2). destruct W2' as (_ & _ & Hc2').
-    cbn [snd] in *. clear - BC Hc1 Hc1' Hc2 Hc2'.
-    destruct Hc1 as [-> | ->]; destruct Hc1' as [-> | ->]; try reflexivity; exfalso;
-      destruct Hc2 as [-> | ->]; destruct Hc2' as [-> | ->]; vm_compute in BC; discriminate. }
+    cbn [snd] in *. apply (borrow_cases c1 c1' c2 c2'); auto. }
   subst c1'.
   pose proof (mz_iter 397 _ H0) as M0. rewrite E1 in M0.
   pose proof (mz_iter 397 _ H0') as M0'. rewrite E1' in M0'. congruence.
@@ -1203,3 +1230,142 @@ Proof.
   pose proof (histories_determine_start h0 h0' h1 c1 c1' h2 c2 c2' F1 F2 E1 E2 E1' E2') as MZ.
   apply mz_inj in MZ; auto. unfold h0, h0' in MZ. apply seed_words_inj in MZ; auto; lia.
 Qed.
+
+(* ------------------------------------------------------------------ restart *)
+Lemma read_doubles_app : forall xs rest,
+  read_doubles (length xs) (map Wd xs ++ rest) = Some (xs, rest).
+Proof.
+  induction xs as [|a xs IH]; intros rest; cbn [length map app read_doubles].
+  - reflexivity.
+  - rewrite IH. reflexivity.
+Qed.
+
+Lemma restart_roundtrip : forall s, length (xdbl s) = 12%nat -> restore (dump s) = Some s.
+Proof.
+  intros [xs c a b o p] H. cbn [xdbl] in H. unfold restore, dump. cbn [xdbl carry ir jr ir_old pr].
+  rewrite <- H. rewrite read_doubles_app. reflexivity.
+Qed.
+
+Lemma restart_continues : forall s s' n, wf s -> restore (dump s) = Some s' -> s' = s /\ stream n s' = stream n s.
+Proof.
+  intros s s' n H E. rewrite restart_roundtrip in E by apply H. injection E as <-. auto.
+Qed.
+
+(* ------------------------------------------------------------------ the step is NOT injective *)
+Definition wit1 : loc := mkLoc [5; 0; 0; 0; 0; 0; 0; 9; 0; 0; 0; 0] 0 0 7.
+Definition wit2 : loc := mkLoc [4; 0; 0; 0; 0; 0; 0; 9; 0; 0; 0; 0] 1 0 7.
+
+Lemma wit_inv : forall a c, 0 <= a < 10 -> (c = 0 \/ c = 1) -> locinv (mkLoc [a; 0; 0; 0; 0; 0; 0; 9; 0; 0; 0; 0] c 0 7).
+Proof.
+  intros a c Ha Hc. split; [|reflexivity]. unfold locwf. cbn [lx lc lir ljr].
+  split; [reflexivity|]. split; [|split; [exact Hc|lia]].
+  repeat (apply Forall_cons; [unfold word_ok, W; lia|]). apply Forall_nil.
+Qed.
+
+Lemma step_not_injective : exists l1 l2, locinv l1 /\ locinv l2 /\ l1 <> l2 /\ body l1 = body l2.
+Proof.
+  exists wit1, wit2. split; [apply wit_inv; [lia|auto]|]. split; [apply wit_inv; [lia|auto]|].
+  split; [discriminate|]. vm_compute. reflexivity.
+Qed.
+
+(* ------------------------------------------------------------------ every intermediate is a numerator of magnitude <= 2^48 *)
+Definition exact48 (v : Z) : Prop := - W <= v <= W.
+
+(* the values computed by one loop body, in evaluation order: xdbl[jr], xdbl[ir], y1, y2, carry', y2' *)
+Definition body_ivals (l : loc) : list Z :=
+  let a := zn (lx l) (ljr l) in let b := zn (lx l) (lir l) in
+  let y1 := a - b in let y2 := y1 - lc l in
+  [a; b; y1; y2; snd (norm y2); fst (norm y2)].
+
+Lemma body_exact : forall l, locwf l -> Forall exact48 (body_ivals l).
+Proof.
+  intros l H. pose proof (pend_bounds l H) as Hp. destruct (norm_ok _ Hp) as [Hv Hc]. unfold pend in *.
+  destruct H as (Hlen & Hx & Hcar & Hi & Hj).
+  assert (word_ok (zn (lx l) (ljr l))) by (apply Forall_zn; auto; lia).
+  assert (word_ok (zn (lx l) (lir l))) by (apply Forall_zn; auto; lia).
+  unfold body_ivals, exact48, word_ok in *. pose proof W_pos.
+  repeat (apply Forall_cons; [lia|]). apply Forall_nil.
+Qed.
+
+(* the values computed by one RANLUX_STEP: xdbl[i1], xdbl[i2], x1, x1', x2' *)
+Definition rs_ivals (xd : list Z) (x2 : Z) (i1 i2 : Z) : list Z :=
+  let x1 := zn xd i1 - zn xd i2 in
+  [zn xd i1; zn xd i2; x1; (if x2 <? 0 then x1 - 1 else x1); (if x2 <? 0 then x2 + W else x2)].
+
+Lemma rs_exact : forall l i1 i2, locwf l -> i2 = (lir l + 1) mod 12 -> i1 = (ljr l + 1) mod 12 -> i1 <> lir l ->
+  Forall exact48 (rs_ivals (lx l) (pend l) i1 i2) /\
+  rs_ivals (lx l) (pend l) i1 i2 = [zn (lx l) i1; zn (lx l) i2; zn (lx l) i1 - zn (lx l) i2; pend (body l); fst (norm (pend l))].
+Proof.
+  intros l i1 i2 Hl H2 H1 Hne.
+  pose proof (rs_body l (lir l) i1 i2 Hl eq_refl H2 H1 Hne) as E.
+  pose proof (pend_bounds l Hl) as Hp. pose proof (pend_bounds _ (body_wf l Hl)) as Hp'.
+  destruct (norm_ok _ Hp) as [Hv _].
+  assert (R : rs_ivals (lx l) (pend l) i1 i2 =
+              [zn (lx l) i1; zn (lx l) i2; zn (lx l) i1 - zn (lx l) i2; pend (body l); fst (norm (pend l))]).
+  { unfold ranlux_step in E. unfold rs_ivals, norm in *. destruct (pend l <? 0); cbn [fst snd] in *;
+      injection E as _ E; rewrite <- E; reflexivity. }
+  split; [|exact R]. rewrite R.
+  destruct Hl as (Hlen & Hx & Hcar & Hi & Hj).
+  assert (0 <= i1 < 12) by (subst i1; apply Z.mod_pos_bound; lia).
+  assert (0 <= i2 < 12) by (subst i2; apply Z.mod_pos_bound; lia).
+  assert (word_ok (zn (lx l) i1)) by (apply Forall_zn; auto; lia).
+  assert (word_ok (zn (lx l) i2)) by (apply Forall_zn; auto; lia).
+  unfold exact48, word_ok in *. pose proof W_pos.
+  repeat (apply Forall_cons; [lia|]). apply Forall_nil.
+Qed.
+
+(* seeding: every partial sum x of the 48-step inner loop is below 2^(number of steps) <= 2^48 *)
+Lemma seed_partial_exact : forall m r, reginv r -> (m <= 48)%nat ->
+  0 <= fold_left wacc (lfsr m r) 0 < 2 ^ Z.of_nat m /\ 2 ^ Z.of_nat m <= W.
+Proof.
+  intros m r H Hm. pose proof (wob_range (lfsr m r) (lfsr_bits m r H)) as B. rewrite length_lfsr in B.
+  rewrite wob_fold in B. split; [exact B|]. change W with (2 ^ 48). apply Z.pow_le_mono_r; lia.
+Qed.
+
+(* the executable check run by the model driver on every visited state decides wf *)
+Lemma wfb_sound : forall s, wfb s = true -> wf s.
+Proof.
+  intros s H. unfold wfb in H. repeat (apply andb_prop in H; destruct H as [H ?]).
+  unfold wf. repeat split.
+  - apply Nat.eqb_eq. auto.
+  - apply Forall_forall. intros v Hv.
+    match goal with F : forallb _ _ = true |- _ => rewrite forallb_forall in F; specialize (F v Hv); apply andb_prop in F; destruct F as [F1 F2] end.
+    unfold word_ok. apply Z.leb_le in F1. apply Z.ltb_lt in F2. lia.
+  - match goal with F : (_ =? 0) || _ = true |- _ => apply orb_prop in F; destruct F as [F|F]; apply Z.eqb_eq in F; auto end.
+  - apply Z.leb_le; auto.
+  - apply Z.ltb_lt; auto.
+  - apply Z.leb_le; auto.
+  - apply Z.ltb_lt; auto.
+  - apply Z.eqb_eq; auto.
+  - apply Z.leb_le; auto.
+Qed.
+
+(* ------------------------------------------------------------------ examples: the hypotheses are satisfiable, the statements are not vacuous *)
+(* first values of seed 1 (what gsl_rng_ranlxd2 seeded with 1 returns, times 2^48) *)
+Example ex_seed1 : stream 14 (set_seed 1) =
+  [21745022586017; 196174505299359; 205773107636216; 58556236704735; 195849200845518; 259647544328442; 228507593575357;
+   120698853816937; 212624361058374; 109219519070484; 101194482428869; 236334768703061; 107983022133965; 267462294193551].
+Proof. vm_compute. reflexivity. Qed.
+
+Example ex_wf : wfb (set_seed 1) = true /\ wfb (after 30 (set_seed 12345)) = true /\ wfb (after 13 (set_seed 2147483648)) = true.
+Proof. vm_compute. auto. Qed.
+
+(* the state in which increment_state is called first satisfies its precondition ir = ir_old, and all three loops run later on *)
+Example ex_increment_pre : let s := set_seed 42 in (ir s + 1) mod 12 = ir_old s /\ ir (after 13 s) = 2 /\ ir_old (after 13 s) = 2.
+Proof. vm_compute. auto. Qed.
+
+(* seeds 2 and 3 differ within the first 24 values (here already in the first) *)
+Example ex_streams_differ : nth_output 2 0 <> nth_output 3 0.
+Proof. vm_compute. discriminate. Qed.
+
+(* seed 2^31 is used as index 0: the shift register is all zero, every word is 2^48-1, and the very first
+   subtract-with-borrow difference is exactly 0 (the case that separates y2 < 0 from y2 <= 0) *)
+Example ex_degenerate_seed : xdbl (set_seed 2147483648) = repeat (W - 1) 12 /\ pend (mkLoc (xdbl (set_seed 2147483648)) 0 0 7) = 0.
+Proof. vm_compute. auto. Qed.
+
+(* dump/restore in the middle of a batch of twelve *)
+Example ex_restart : let s := after 17 (set_seed 7) in restore (dump s) = Some s /\ length (dump s) = 17%nat.
+Proof. vm_compute. auto. Qed.
+
+Example ex_integer : fst (next_integer (set_seed 1)) = 165901356.
+Proof. vm_compute. auto. Qed.
